@@ -62,6 +62,11 @@ def guard_nested_nth(fs):
     for f, srt in used.values():
         s = z3.Const('s!nn', srt); i = z3.Int('i!nn')
         ax.append(z3.ForAll([s, i], z3.Implies(z3.And(0 <= i, i < z3.Length(s)), z3.SubSeq(s, i, 1) == z3.Unit(f(s, i))), patterns=[f(s, i)]))
+        # nth over the constructors (what the sequence theory says about nth natively): concatenation and the unit sequence
+        a_, b_ = z3.Const('a!nn', srt), z3.Const('b!nn', srt); x_ = z3.Const('x!nn', srt.basis())
+        ax.append(z3.ForAll([a_, b_, i], z3.Implies(z3.And(0 <= i, i < z3.Length(a_)), f(z3.Concat(a_, b_), i) == f(a_, i)), patterns=[f(z3.Concat(a_, b_), i)]))
+        ax.append(z3.ForAll([a_, b_, i], z3.Implies(z3.And(z3.Length(a_) <= i, i < z3.Length(a_) + z3.Length(b_)), f(z3.Concat(a_, b_), i) == f(b_, i - z3.Length(a_))), patterns=[f(z3.Concat(a_, b_), i)]))
+        ax.append(z3.ForAll([x_], f(z3.Unit(x_), 0) == x_, patterns=[f(z3.Unit(x_), 0)]))
         # (the same fact in the shape loop invariants over prefixes use: the prefix of length i+1 is the prefix of length i and the i-th item)
         ax.append(z3.ForAll([s, i], z3.Implies(z3.And(0 <= i, i < z3.Length(s)), z3.SubSeq(s, 0, i + 1) == z3.Concat(z3.SubSeq(s, 0, i), z3.Unit(f(s, i)))), patterns=[f(s, i)]))
     return out, ax
